@@ -212,6 +212,10 @@ func runtimeCell(cause, load string) cellResult {
 		} else {
 			_, _ = aw.WriteString(badAuditLine)
 		}
+	case "invalid-login-with-another-login-buffered":
+		// the correlator rejects the first login (pid 0) and the audit worker stops with that error while
+		// the sshd worker already holds the next login and has nobody to hand it to
+		_, _ = sw.WriteString("0 Accepted password for alice from 1.2.3.4 port 5 ssh2\n4711 Accepted password for bob from 1.2.3.4 port 6 ssh2\n4712 Accepted password for carol from 1.2.3.4 port 7 ssh2\n")
 	case "output-dev-full", "output-fifo-reader-left":
 		_, _ = sw.WriteString("4711 Failed password for bob from 1.2.3.4 port 5 ssh2\n")
 	case "sigterm":
@@ -333,7 +337,7 @@ func startupCell(which, kind string) cellResult {
 }
 
 func runC08(run *mc.Run) int {
-	causes := []string{"sshd-pipe-eof", "audit-pipe-eof", "unparsable-audit-line", "output-dev-full", "output-fifo-reader-left", "sigterm", "sigint"}
+	causes := []string{"sshd-pipe-eof", "audit-pipe-eof", "unparsable-audit-line", "invalid-login-with-another-login-buffered", "output-dev-full", "output-fifo-reader-left", "sigterm", "sigint"}
 	var results []cellResult
 	inconclusive := 0
 	judge := func(r cellResult) {
@@ -350,7 +354,7 @@ func runC08(run *mc.Run) int {
 		judge(runtimeCell(c, "idle"))
 	}
 	for _, c := range causes {
-		if !run.Thorough() && (c == "output-dev-full" || c == "sigint" || c == "output-fifo-reader-left") {
+		if !run.Thorough() && (c == "output-dev-full" || c == "sigint" || c == "output-fifo-reader-left" || c == "invalid-login-with-another-login-buffered") {
 			continue
 		}
 		judge(runtimeCell(c, "saturated"))
@@ -385,7 +389,7 @@ func runC08(run *mc.Run) int {
 		}
 	}
 	cov := mc.Coverage{Level: "fault_enumeration", Evaluations: len(results), Distinct: len(results) - inconclusive, Exhaustive: inconclusive == 0, Samples: samples,
-		Rule:  "fault enumeration on the built binary over real FIFOs: 7 run-time causes (sshd pipe EOF, audit pipe EOF, unparsable audit line, output /dev/full, output FIFO whose reader left, SIGTERM, SIGINT) x load {idle, stalled-output: the events FIFO is never drained so the line buffer and the audit pipe stay full (write end accepts no byte for >=300 ms), saturated: a writer keeps the audit FIFO full - single-record events written at full speed, >=8 MB written and the pipe found full >=50 times - flow equilibrium with the 10000-slot line buffer full}, 6 start-up causes (sshd/audit path is a regular file, a directory, missing); oracle: the process exits within 10 s of the cause, non-zero for failures. A cell whose set-up could not be reached is inconclusive (exit 0, exhaustive=false). distinct_nontrivial = conclusive cells",
+		Rule:  "fault enumeration on the built binary over real FIFOs: 8 run-time causes (sshd pipe EOF, audit pipe EOF, unparsable audit line, a login the correlator rejects while the next login is already buffered, output /dev/full, output FIFO whose reader left, SIGTERM, SIGINT) x load {idle, stalled-output: the events FIFO is never drained so the line buffer and the audit pipe stay full (write end accepts no byte for >=300 ms), saturated: a writer keeps the audit FIFO full - single-record events written at full speed, >=8 MB written and the pipe found full >=50 times - flow equilibrium with the 10000-slot line buffer full}, 6 start-up causes (sshd/audit path is a regular file, a directory, missing); oracle: the process exits within 10 s of the cause, non-zero for failures. A cell whose set-up could not be reached is inconclusive (exit 0, exhaustive=false). distinct_nontrivial = conclusive cells",
 		Extra: map[string]any{"cells": results, "saturated_cells_reached": sat, "inconclusive": inconclusive, "bound_s": exitBound.Seconds()}}
 	cov.Assumptions = []string{"the OS scheduler is not controlled; 10 s is the property's bounded time against observed millisecond latencies",
 		"the decisive blocking state (line buffer full, consumer gone) is also decided deterministically by C13's bubble cells"}
